@@ -33,53 +33,56 @@ CONSTANT MIds   \* indices of minted ids the monitor can track, e.g. 1..8
 
 VARIABLES l,
           T, stateless,   \* configuration of the current trace
-          info,           \* [MIds -> what the monitor knows about the i-th minted id]
+          minted,         \* indices of the ids issued so far
+          owner,          \* [MIds -> user that created the session]
+          idlePost,       \* [MIds -> time the last honoured POST on the id ended (or the id was minted)]
+          idleAny,        \* [MIds -> same, counting honoured GETs as well]
+          delIssued, delDone,      \* ids on which a DELETE by an entitled user was issued / answered 2xx
+          closeIssued, closeRet,   \* ids whose server-side Close() was called / has returned
+          gone,           \* ids seen absent from Server.Sessions() after they were minted
           open,           \* requests in progress: k -> request record with the flags computed at issue
           prev            \* Server.Sessions() at the end of the previous step
-mvars == <<l, T, stateless, info, open, prev>>
+mvars == <<l, T, stateless, minted, owner, idlePost, idleAny, delIssued, delDone, closeIssued, closeRet, gone, open, prev>>
 
-NoInfo == [minted |-> FALSE, owner |-> "none", idlePost |-> 0, idleAny |-> 0, delIssued |-> FALSE,
-           delDone |-> FALSE, closeIssued |-> FALSE, closeRet |-> FALSE, gone |-> FALSE]
-NewInfo(u, t) == [NoInfo EXCEPT !.minted = TRUE, !.owner = u, !.idlePost = t, !.idleAny = t]
 EmptyFn == [k \in {} |-> 0]
+Zero == [i \in MIds |-> 0]
+Nobody == [i \in MIds |-> "none"]
 
-IsMinted(inf, i) == i \in MIds /\ inf[i].minted
 PostsOn(op, i) == {k \in DOMAIN op : op[k].m = "POST" /\ op[k].tgt = i}
 
 \* the termination of i is complete: deleted, closed by the server, seen forgotten, or idle for longer
 \* than the timeout (strictly) with no POST in progress
-TermDone(inf, op, i, t) ==
-  IsMinted(inf, i) /\ (\/ inf[i].delDone \/ inf[i].closeRet \/ inf[i].gone
-                       \/ (T > 0 /\ PostsOn(op, i) = {} /\ t > inf[i].idleAny + T))
-CausePending(inf, i) == inf[i].delIssued \/ inf[i].closeIssued
+TermDone(mt, dd, cr, gn, ia, op, i, t) ==
+  i \in mt /\ (\/ i \in dd \/ i \in cr \/ i \in gn
+               \/ (T > 0 /\ t > ia[i] + T /\ PostsOn(op, i) = {}))
 \* the idle timeout may legitimately have fired by time t: the deadline has been reached and every
 \* POST in progress was admitted at the deadline or later (never strictly before it)
-MaybeTimedOut(inf, op, i, t) ==
-  T > 0 /\ t >= inf[i].idlePost + T /\ \A k \in PostsOn(op, i) : op[k].t >= inf[i].idlePost + T
-SurelyAlive(inf, op, i, t) ==
-  IsMinted(inf, i) /\ i \in prev /\ ~TermDone(inf, op, i, t) /\ ~CausePending(inf, i)
-  /\ ~MaybeTimedOut(inf, op, i, t)
-Foreign(inf, q) == IsMinted(inf, q.tgt) /\ inf[q.tgt].owner # "none" /\ q.user # inf[q.tgt].owner
+MaybeTimedOut(i, t) ==
+  T > 0 /\ t >= idlePost[i] + T /\ \A k \in PostsOn(open, i) : open[k].t >= idlePost[i] + T
+\* (all evaluated on what was known before the current step)
+MustDead(i, t) == TermDone(minted, delDone, closeRet, gone, idleAny, open, i, t)
+SurelyAlive(i, t) ==
+  i \in minted /\ i \in prev /\ ~MustDead(i, t) /\ i \notin delIssued /\ i \notin closeIssued
+  /\ ~MaybeTimedOut(i, t)
+Foreign(q) == q.tgt \in minted /\ owner[q.tgt] # "none" /\ q.user # owner[q.tgt]
 
 \* flags of a request, computed from what was known when it was issued
 Flag(q, t) ==
-  [k |-> q.k, m |-> q.m, body |-> q.body, tgt |-> q.tgt, user |-> q.user, t |-> t,
-   mustDead |-> TermDone(info, open, q.tgt, t),
-   alive    |-> SurelyAlive(info, open, q.tgt, t),
-   foreign  |-> Foreign(info, q)]
+  [m |-> q.m, tgt |-> q.tgt, t |-> t,
+   mustDead |-> MustDead(q.tgt, t), alive |-> SurelyAlive(q.tgt, t), foreign |-> Foreign(q)]
 
 DoneChecks(q, d) ==
   /\ Check(l, "NoPanic", d.panic = "")
-  /\ Check(l, "MintOnlyOnCreate", d.fresh => (q.m = "POST" /\ q.tgt = 0 /\ ~stateless /\ d.status = 200))
-  /\ Check(l, "MintOnlyOnCreate", (d.sid # 0 /\ ~d.fresh) => d.sid = q.tgt)
+  /\ Check(l, "MintOnlyOnCreate", d.fresh => (d.m = "POST" /\ d.tgt = 0 /\ ~stateless /\ d.status = 200))
+  /\ Check(l, "MintOnlyOnCreate", (d.sid # 0 /\ ~d.fresh) => d.sid = d.tgt)
   /\ Check(l, "StatelessNoIds", stateless => /\ d.sid = 0
-                                             /\ (q.m \in {"GET", "DELETE"} => d.status = 405)
-                                             /\ (q.m = "POST" => d.status < 300))
+                                             /\ (d.m \in {"GET", "DELETE"} => d.status = 405)
+                                             /\ (d.m = "POST" => d.status < 300))
   /\ Check(l, "DeadStaysDead", q.mustDead => (d.status = 404 /\ d.sid = 0))
   /\ Check(l, "UserBound", (q.foreign /\ ~q.mustDead) =>
                               (d.sid = 0 /\ (d.status = 403 \/ (~q.alive /\ d.status = 404))))
   /\ Check(l, "AtMostOneSession", (q.alive /\ ~q.foreign) => d.status \notin {403, 404})
-  /\ Check(l, "AtMostOneSession", (q.tgt = -1 /\ ~stateless) => (d.status >= 400 /\ d.sid = 0))
+  /\ Check(l, "AtMostOneSession", (d.tgt = -1 /\ ~stateless) => (d.status >= 400 /\ d.sid = 0))
 
 RanChecks(q) ==
   /\ Check(l, "DeadStaysDead", ~q.mustDead)
@@ -91,63 +94,63 @@ Step(e) ==
       iss == [k \in {e.issued[j].k : j \in DOMAIN e.issued} |->
                 Flag(e.issued[CHOOSE j \in DOMAIN e.issued : e.issued[j].k = k], t)]
       all == open @@ iss
-      doneKs == {e.done[j].k : j \in DOMAIN e.done}
-      Rejected(k) == \E j \in DOMAIN e.done : e.done[j].k = k /\ e.done[j].status >= 400
-      \* knowledge updated by what was issued
-      infA == [i \in MIds |->
-                 [info[i] EXCEPT
-                    !.delIssued = @ \/ \E k \in DOMAIN iss : iss[k].m = "DELETE" /\ iss[k].tgt = i /\ ~iss[k].foreign,
-                    !.closeIssued = @ \/ (e.op = "Close" /\ e.a2 = i /\ e.note = ""),
-                    !.closeRet = @ \/ i \in AsSet(e.closeret)]]
-      \* ... and by the completions, in order
-      Upd(inf, q, d) ==
-        LET a == IF d.fresh /\ d.sid \in MIds THEN [inf EXCEPT ![d.sid] = NewInfo(q.user, t)] ELSE inf
-            i == q.tgt IN
-        IF IsMinted(a, i) /\ d.status < 400
-        THEN [a EXCEPT ![i].idlePost = IF q.m = "POST" THEN t ELSE @,
-                       ![i].idleAny = IF q.m \in {"POST", "GET"} THEN t ELSE @,
-                       ![i].delDone = @ \/ q.m = "DELETE"]
-        ELSE a
-      Fold[j \in 0..Len(e.done)] ==
-        IF j = 0 THEN infA
-        ELSE IF e.done[j].k \in DOMAIN all THEN Upd(Fold[j - 1], all[e.done[j].k], e.done[j]) ELSE Fold[j - 1]
-      infB == Fold[Len(e.done)]
-      open1 == [k \in (DOMAIN all) \ doneKs |-> all[k]]
+      dn == AsSet(e.done)
+      open1 == [k \in (DOMAIN all) \ {d.k : d \in dn} |-> all[k]]
+      \* knowledge updated by what was issued and what completed (every update of this step is for time t)
+      newIds == {d.sid : d \in {x \in dn : x.fresh /\ x.sid \in MIds}}
+      minted1 == minted \cup newIds
+      ok == {d \in dn : d.status < 400 /\ d.tgt \in minted1}
+      postOk == {d.tgt : d \in {x \in ok : x.m = "POST"}}
+      getOk == {d.tgt : d \in {x \in ok : x.m = "GET"}}
+      delIssued1 == delIssued \cup {iss[k].tgt : k \in {x \in DOMAIN iss : iss[x].m = "DELETE" /\ iss[x].tgt \in minted /\ ~iss[x].foreign}}
+      delDone1 == delDone \cup {d.tgt : d \in {x \in ok : x.m = "DELETE"}}
+      closeIssued1 == IF e.op = "Close" /\ e.note = "" THEN closeIssued \cup {e.a2} ELSE closeIssued
+      closeRet1 == closeRet \cup AsSet(e.closeret)
+      idleAny1 == [i \in MIds |-> IF i \in newIds \/ i \in postOk \/ i \in getOk THEN t ELSE idleAny[i]]
       live == {x \in AsSet(e.sess) : x > 0}
-      \* POSTs that were in progress on i at some moment of this step
-      During(i) == {k \in DOMAIN all : all[k].m = "POST" /\ all[k].tgt = i /\ ~Rejected(k)}
-      Deadline(i) == info[i].idlePost + T
+      \* POSTs that were in progress on i at some moment of this step (refused ones do not count)
+      During(i) == {k \in DOMAIN all : all[k].m = "POST" /\ all[k].tgt = i
+                                         /\ ~\E d \in dn : d.k = k /\ d.status >= 400}
+      Deadline(i) == idlePost[i] + T
       TimeoutLegit(i) == T > 0 /\ t >= Deadline(i) /\ \A k \in During(i) : all[k].t >= Deadline(i)
-      died == {i \in prev : i \notin live /\ i \in MIds}
-      Unexplained(i) == ~(infB[i].delIssued \/ infB[i].closeIssued \/ TimeoutLegit(i))
-      infC == [i \in MIds |-> [infB[i] EXCEPT !.gone = @ \/ (infB[i].minted /\ i \notin live)]]
+      died == {i \in prev : i \notin live}
+      Unexplained(i) == ~(i \in delIssued1 \/ i \in closeIssued1 \/ TimeoutLegit(i))
+      ForeignNow(i) == \E k \in DOMAIN iss : iss[k].tgt = i /\ iss[k].foreign
   IN
-  /\ \A j \in DOMAIN e.done : Check(l, "Harness", e.done[j].k \in DOMAIN all)
-  /\ \A j \in DOMAIN e.done : e.done[j].k \in DOMAIN all => DoneChecks(all[e.done[j].k], e.done[j])
+  /\ \A d \in dn : Check(l, "Harness", d.k \in DOMAIN all)
+  /\ \A d \in dn : d.k \in DOMAIN all => DoneChecks(all[d.k], d)
   /\ \A j \in DOMAIN e.ran : e.ran[j] \in DOMAIN all => RanChecks(all[e.ran[j]])
   \* one id, one session
   /\ Check(l, "AtMostOneSession", Cardinality({j \in DOMAIN e.sess : e.sess[j] > 0}) = Cardinality(live))
   \* a session may end only by DELETE, server-side close or idle timeout; the idle timeout never
   \* fires under a POST that was admitted strictly before the deadline
-  /\ \A i \in died :
-        /\ Check(l, "NoTimeoutDuringPost", ~(Unexplained(i) /\ T > 0 /\ During(i) # {}))
-        /\ Check(l, "UserBound", ~(Unexplained(i) /\ ~(T > 0 /\ During(i) # {})
-                                   /\ \E k \in DOMAIN iss : iss[k].tgt = i /\ iss[k].foreign))
-        /\ Check(l, "Drift.SpuriousDeath", ~(Unexplained(i) /\ ~(T > 0 /\ During(i) # {})
-                                             /\ ~\E k \in DOMAIN iss : iss[k].tgt = i /\ iss[k].foreign))
+  /\ \A i \in died : Unexplained(i) =>
+        /\ Check(l, "NoTimeoutDuringPost", ~(T > 0 /\ During(i) # {}))
+        /\ Check(l, "UserBound", (T > 0 /\ During(i) # {}) \/ ~ForeignNow(i))
+        /\ Check(l, "Drift.SpuriousDeath", (T > 0 /\ During(i) # {}) \/ ForeignNow(i))
   \* forgotten means forgotten
-  /\ \A i \in live : i \in MIds => Check(l, "DeadStaysDead", ~info[i].gone)
-  /\ \A i \in MIds : TermDone(infB, open1, i, t) =>
+  /\ Check(l, "DeadStaysDead", live \cap gone = {})
+  /\ \A i \in minted1 : TermDone(minted1, delDone1, closeRet1, gone, idleAny1, open1, i, t) =>
         /\ Check(l, "ClosedAndForgotten", i \notin live)
         /\ Check(l, "ClosedAndForgotten", i \in AsSet(e.closed))
-  /\ info' = infC /\ open' = open1 /\ prev' = live
+  /\ minted' = minted1
+  /\ owner' = [i \in MIds |-> IF i \in newIds THEN (CHOOSE d \in dn : d.fresh /\ d.sid = i).user ELSE owner[i]]
+  /\ idlePost' = [i \in MIds |-> IF i \in newIds \/ i \in postOk THEN t ELSE idlePost[i]]
+  /\ idleAny' = idleAny1
+  /\ delIssued' = delIssued1 /\ delDone' = delDone1 /\ closeIssued' = closeIssued1 /\ closeRet' = closeRet1
+  /\ gone' = gone \cup (minted1 \ live)
+  /\ open' = open1 /\ prev' = live
   /\ UNCHANGED <<T, stateless>>
 
 Reset(e) == /\ T' = e.timeout /\ stateless' = e.stateless
-            /\ info' = [i \in MIds |-> NoInfo] /\ open' = EmptyFn /\ prev' = {}
+            /\ minted' = {} /\ owner' = Nobody /\ idlePost' = Zero /\ idleAny' = Zero
+            /\ delIssued' = {} /\ delDone' = {} /\ closeIssued' = {} /\ closeRet' = {} /\ gone' = {}
+            /\ open' = EmptyFn /\ prev' = {}
 
-MInit == /\ l = 1 /\ T = 0 /\ stateless = FALSE /\ info = [i \in MIds |-> NoInfo] /\ open = EmptyFn
-         /\ prev = {} /\ MarkInit
+MInit == /\ l = 1 /\ T = 0 /\ stateless = FALSE
+         /\ minted = {} /\ owner = Nobody /\ idlePost = Zero /\ idleAny = Zero
+         /\ delIssued = {} /\ delDone = {} /\ closeIssued = {} /\ closeRet = {} /\ gone = {}
+         /\ open = EmptyFn /\ prev = {} /\ MarkInit
 
 MNext == /\ l <= NLines
          /\ l' = l + 1
